@@ -387,11 +387,39 @@ def hist_safe(case, obs):
     return None
 
 
+def hist_capacity(case, obs):
+    for k, st in enumerate(obs['steps']):
+        if sum(st['caps']) > case['total']:
+            return 'step %d (%s): the defined slots need %d points, total capacity is %d' % (
+                k, case['ops'][k][0], sum(st['caps']), case['total'])
+    return None
+
+
+def hist_guard(case, obs):
+    """Python mirror of guard_C19_append_behind_freed_slots on the implementation's own states: False when some
+    upload placed segments while freed slots trailed the last referenced one"""
+    prev = {'refs': [1], 'progs': []}
+    for op, st in zip(case['ops'], obs['steps']):
+        if op[0] == 'upload':
+            refs = list(prev['refs'])
+            known = {p[0]: p[1] for p in prev['progs']}
+            if op[1] in known:
+                if not op[3]:
+                    prev = st
+                    continue
+                for q in set(known[op[1]]):
+                    refs[q] -= 1
+            if refs and refs[-1] <= 0:
+                return False
+        prev = st
+    return True
+
+
 def py_spec(case, obs):
     if 'crash' in obs or 'hang' in obs:
         return 'implementation crashed: %r' % (obs,)
     if case['kind'] == 'hist':
-        return hist_safe(case, obs)
+        return hist_safe(case, obs) or hist_capacity(case, obs)
     return clauses(case, obs)
 
 
@@ -451,6 +479,9 @@ def histogram_keys(case, obs):
 
 
 def classify(case, obs):
+    if case['kind'] == 'hist' and 'steps' in obs and hist_safe(case, obs) is None and hist_capacity(case, obs) \
+            and not hist_guard(case, obs):
+        return 'append-behind-freed-trailing-slots'
     return None
 
 
